@@ -336,6 +336,19 @@ func runC19ShareChild(res *hx.Result, rng *hx.Rng, tier string, outdir string) {
 				}
 				return []object.ObjectReference{ref}
 			}
+			// first one request alone with a reference of the same kind: is the caller's reference what it was?
+			// (printed at once: the concurrent rounds may kill the process)
+			for _, rf := range mk(-1) {
+				was := c19CopyMeta(rf.MetaObject)
+				if _, err := sess.Object(rf); err != nil {
+					r.Errs[0] = fmt.Sprintf("alone, Object(reference to service %d): %v", rf.ServiceID, err)
+				}
+				if !reflect.DeepEqual(rf.MetaObject, was) {
+					r.Modified = fmt.Sprintf("one Session.Object request, alone: the reference listed %d methods, %d signals, %d properties before the request and %d, %d, %d afterwards",
+						len(was.Methods), len(was.Signals), len(was.Properties), len(rf.MetaObject.Methods), len(rf.MetaObject.Signals), len(rf.MetaObject.Properties))
+					fmt.Println("C19MODIFIED " + r.Modified)
+				}
+			}
 			var refs []object.ObjectReference
 			for round := 0; round < sc.Rounds; round++ {
 				if refs == nil || sc.Ref != "reused" {
@@ -502,6 +515,9 @@ func c19RunShare(sc c19ShareSc, workdir string, idx int) c19ShareObs {
 			o.stderr = line
 			return o
 		}
+		if strings.HasPrefix(line, "C19MODIFIED ") {
+			o.res.Modified = strings.TrimPrefix(line, "C19MODIFIED ")
+		}
 	}
 	if ctx.Err() != nil {
 		o.class = "hang"
@@ -620,6 +636,9 @@ func runC19Share(res *hx.Result, rng *hx.Rng, tier string, outdir string) {
 			res.Dist(fmt.Sprintf("share:largest-meta-object-reply:%d-KiB", (o.res.Bytes+512)/1024))
 		}
 		res.Sample(fmt.Sprintf("%s => %s done=%v largest meta-object %d bytes", desc, o.class, o.res.Done, o.res.Bytes))
+		if o.class != "ok" && o.res.Modified != "" {
+			res.Fail("reference-modified", desc+": "+o.res.Modified)
+		}
 		switch o.class {
 		case "crash":
 			res.Fail("process-crashed", fmt.Sprintf("%s: the process died: %s", desc, c19Tail(o.stderr, 400)))
